@@ -28,7 +28,8 @@ def message():
     return bytes(m[:60000])
 
 
-msgs = sorted({message() for _ in range(count)}, key=lambda m: (len(m), m))
+fixed = {bytes([7]) * n for n in (253, 254, 255, 256, 507, 508, 509, 510)} | {bytes([7]) * 254 + b"\0" + bytes([9]) * 254}
+msgs = sorted({message() for _ in range(count)} | fixed, key=lambda m: (len(m), m))
 with open(out, "wb") as f:
     for m in msgs:
         frame = bytes(mod.encode_cobs(bytearray(m)))
